@@ -12,12 +12,15 @@ def kind(sql):
     for k in ("insert or replace into", "insert into", "update", "delete from", "select", "create table", "pragma", "begin", "commit", "rollback"):
         if s.startswith(k):
             return k
+    m = re.match(r"(insert or [a-z]+ into|replace into)\b", s)
+    if m:
+        return m.group(1)
     return s.split(" ")[0] if s else ""
 
 
 def table(sql):
     s = norm(sql)
-    m = re.match(r"(?:insert or replace into|insert into|update|delete from|create table)\s+([a-z_]+)", s)
+    m = re.match(r"(?:insert or [a-z]+ into|replace into|insert into|update|delete from|create table)\s+([a-z_]+)", s)
     if m:
         return m.group(1)
     m = re.search(r"\bfrom\s+([a-z_]+)", s)
